@@ -609,7 +609,7 @@ func readTLV(b []byte) (tag byte, content, rest []byte, err error) {
 	off := 2
 	if n&0x80 != 0 {
 		k := n & 0x7f
-		if k == 0 || k > 3 || len(b) < 2+k {
+		if k == 0 || k > 4 || len(b) < 2+k {
 			return 0, nil, nil, fmt.Errorf("length")
 		}
 		n = 0
